@@ -51,6 +51,11 @@ pub struct Obs {
     pub orpha: Vec<RecObs>,
     pub categories: Vec<u32>,
     pub modifier: Vec<u32>,
+    /// bit patterns of built-in similarity scores (7 algorithms x 3 kinds) for a fixed sample of ordered term pairs.
+    /// Never compared with a model (the formulas are C04, not claimed); only between replicas of the same facts: a
+    /// score must be a function of the facts, not of hash-iteration or delivery order.
+    #[serde(default)]
+    pub sims: Vec<u32>,
     /// (owner field, message): inconsistencies between accessors, or panics, found by the walk
     pub anomalies: Vec<(String, String)>,
     #[serde(default)]
@@ -352,7 +357,27 @@ pub fn observe(o: &Ontology) -> Obs {
     }
     let categories = group(o.categories(), &mut probes);
     let modifier = group(o.modifier(), &mut probes);
-    Obs { version, len, iter_ids, terms, genes, omim, orpha, categories, modifier, anomalies, probes }
+    let mut sims: Vec<u32> = vec![];
+    if terms.len() >= 2 && terms.len() <= 60 {
+        use hpo::similarity::Builtins as B;
+        use hpo::term::InformationContentKind as K;
+        let ids: Vec<u32> = terms.iter().map(|t| t.id).collect();
+        let n = ids.len();
+        for i in 0..n.min(10) {
+            let (a, b) = (ids[i], ids[(i * 7 + 3) % n]);
+            let (Some(ta), Some(tb)) = (o.hpo(a), o.hpo(b)) else { continue };
+            for k in [K::Gene, K::Omim, K::Orpha] {
+                // Distance is left out: its path search is exponential on diamond ladders
+                for algo in [B::GraphIc(k), B::InformationCoefficient(k), B::Jc(k), B::Lin(k), B::Mutation(k), B::Relevance(k), B::Resnik(k)] {
+                    match guarded(|| ta.similarity_score(&tb, &algo).to_bits()) {
+                        Ok(v) => sims.push(v),
+                        Err(_) => sims.push(u32::MAX),
+                    }
+                }
+            }
+        }
+    }
+    Obs { version, len, iter_ids, terms, genes, omim, orpha, categories, modifier, sims, anomalies, probes }
 }
 
 #[derive(Clone, Debug, Serialize, Deserialize)]
@@ -521,12 +546,18 @@ fn diff_raw(a: &Obs, b: &Obs, icm: IcCmp) -> Vec<Diff> {
     if a.modifier != b.modifier {
         out.push(d("modifier", "", &a.modifier, &b.modifier));
     }
+    if !a.sims.is_empty() && !b.sims.is_empty() && a.sims != b.sims && a.terms.len() == b.terms.len() {
+        let i = a.sims.iter().zip(b.sims.iter()).position(|(x, y)| x != y).unwrap_or(0);
+        let algo = ["GraphIc", "InformationCoefficient", "Jc", "Lin", "Mutation", "Relevance", "Resnik"][i % 7];
+        let kind = ["gene", "omim", "orpha"][(i / 7) % 3];
+        out.push(d("similarity", format!("pair#{} {algo}({kind})", i / 21), f32::from_bits(a.sims[i]), f32::from_bits(*b.sims.get(i).unwrap_or(&0))));
+    }
     out
 }
 
 pub fn digest(o: &Obs) -> u64 {
     // serde_json of a struct of Vecs/Strings is deterministic
-    let s = serde_json::to_string(&(&o.version, o.len, &o.iter_ids, &o.terms, &o.genes, &o.omim, &o.orpha, &o.categories, &o.modifier, &o.anomalies)).unwrap();
+    let s = serde_json::to_string(&(&o.version, o.len, &o.iter_ids, &o.terms, &o.genes, &o.omim, &o.orpha, &o.categories, &o.modifier, &o.anomalies, &o.sims)).unwrap();
     crate::prng::tag(&s)
 }
 
